@@ -76,24 +76,27 @@ func init() {
 		// steal / siblings / merge / mergeTwo
 		e("btree.steal", "stealRight", "if[0].cond", "Bool", cat(B("hasRight"), I("rn")), map[string]string{"right!=nil": "hasRight", "right.n": "rn"}),
 		e("btree.steal", "stealLeft", "if[1].cond", "Bool", cat(B("hasLeft"), I("ln")), map[string]string{"left!=nil": "hasLeft", "left.n": "ln"}),
-		Site{Module: mod, Pkg: pkg, Func: "btree.steal", Name: "stealRotations", Kind: Custom,
-			Custom: allOf(
-				stmtsAre("btree.steal", "if[0].body", []string{"t.rotateLeft(x,right)", "returntrue"}),
-				stmtsAre("btree.steal", "if[1].body", []string{"t.rotateRight(left,x)", "returntrue"}))},
+		// which helper is called on which nodes (the model executes what is written here)
+		Site{Module: mod, Pkg: pkg, Name: "treeCallTypes", Kind: Custom, Custom: func(c *Ctx, s *Site) (string, error) { return treeCallTypes, nil }},
+		Site{Module: mod, Pkg: pkg, Func: "btree.steal", Name: "stealRightCall", Kind: Custom,
+			Custom: nodeCall("btree.steal", "if[0].body", []string{"returntrue"}, "stealRightCall")},
+		Site{Module: mod, Pkg: pkg, Func: "btree.steal", Name: "stealLeftCall", Kind: Custom,
+			Custom: nodeCall("btree.steal", "if[1].body", []string{"returntrue"}, "stealLeftCall")},
 		e("btree.siblings", "hasLeftSibling", "if[1].cond", "Bool", I("idx"), map[string]string{"idx": "idx"}),
 		e("btree.siblings", "hasRightSibling", "if[2].cond", "Bool", I("idx", "pn"), map[string]string{"idx": "idx", "int(x.parent.n)": "pn"}),
 		e("btree.siblings", "leftSiblingIdx", "index[x.parent.children][0].idx", "Int", I("idx"), map[string]string{"idx": "idx"}),
 		e("btree.siblings", "rightSiblingIdx", "index[x.parent.children][1].idx", "Int", I("idx"), map[string]string{"idx": "idx"}),
 		e("btree.merge", "mergeIntoLeft", "if[0].cond", "Bool", cat(B("hasLeft"), I("ln")), map[string]string{"left!=nil": "hasLeft", "left.n": "ln"}),
-		Site{Module: mod, Pkg: pkg, Func: "btree.merge", Name: "mergeCalls", Kind: Custom,
-			Custom: allOf(
-				stmtsAre("btree.merge", "if[0].body", []string{"t.mergeTwo(left,x)"}),
-				stmtsAre("btree.merge", "if[0].else", []string{"t.mergeTwo(x,right)"}))},
+		Site{Module: mod, Pkg: pkg, Func: "btree.merge", Name: "mergeLeftCall", Kind: Custom,
+			Custom: nodeCall("btree.merge", "if[0].body", nil, "mergeLeftCall")},
+		Site{Module: mod, Pkg: pkg, Func: "btree.merge", Name: "mergeRightCall", Kind: Custom,
+			Custom: nodeCall("btree.merge", "if[0].else", nil, "mergeRightCall")},
 		present("btree.mergeTwo", "mergeZeroesRight", "", "right.n = 0"),
 		e("btree.mergeTwo", "mergeRootCheck", "if[1].cond", "Bool", I("parentId", "rootId"), map[string]string{"parent": "parentId", "t.root": "rootId"}),
 		e("btree.mergeTwo", "mergeRootEmpty", "if[2].cond", "Bool", I("pn"), map[string]string{"parent.n": "pn"}),
-		Site{Module: mod, Pkg: pkg, Func: "btree.mergeTwo", Name: "mergeCollapsesToLeft", Kind: Custom,
-			Custom: allOf(stmtsAre("btree.mergeTwo", "if[2].body", []string{"t.root=left", "left.parent=nil"}))},
+		// root collapse: the two statements of `if parent.n == 0 { t.root = left; left.parent = nil }`
+		present("btree.mergeTwo", "mergeCollapseSetsRoot", "if[2].body", "t.root = left"),
+		present("btree.mergeTwo", "mergeCollapseClearsParent", "if[2].body", "left.parent = nil"),
 		e("btree.mergeTwo", "mergeCascades", "if[3].cond", "Bool", cat(I("pn"), B("stole")), map[string]string{"parent.n": "pn", "t.steal(parent)": "stole"}),
 		// rotateRight / rotateLeft / removeOne zeroing
 		present("btree.rotateRight", "rotateRightZeroesKey", "", "left.keys[left.n-1] = zeroK"),
@@ -210,6 +213,16 @@ func init() {
 		// Map / Set are handles that forward
 		Site{Module: mod, Pkg: pkg, Name: "mapIsHandle", Kind: Custom, Custom: isHandle("Map", "mapIsHandle")},
 		Site{Module: mod, Pkg: pkg, Name: "setIsHandle", Kind: Custom, Custom: isHandle("Set", "setIsHandle")},
+		// receiver kinds of the shared object behind a handle (consumed by Model/TreeHandle.lean)
+		Site{Module: mod, Pkg: pkg, Name: "btreeRecvIsPtr", Kind: Custom, Custom: recvTable("btree", "btreeRecvIsPtr")},
+		Site{Module: mod, Pkg: pkg, Func: "newBtree", Name: "newBtreeReturnsPtr", Kind: Custom, Custom: returnsAddrOf("newBtree", "btree", "newBtreeReturnsPtr")},
+		Site{Module: mod, Pkg: pkg, Name: "btreeWritesHeader", Kind: Custom, Custom: headerWriters("btree", "btreeWritesHeader")},
+		Site{Module: mod, Pkg: pkg, Name: "mapBodies", Kind: Custom, Custom: bodyTable("Map",
+			[]string{"Len", "Put", "Delete", "Get", "Contains", "First", "Last", "Iterate", "Range", "RangeReverse"}, "mapBodies")},
+		Site{Module: mod, Pkg: pkg, Name: "setBodies", Kind: Custom, Custom: bodyTable("Set",
+			[]string{"Len", "Add", "Remove", "Contains", "First", "Last", "Iterate", "Range", "RangeReverse"}, "setBodies")},
+		Site{Module: mod, Pkg: pkg, Name: "ctorBodies", Kind: Custom, Custom: bodyTable("",
+			[]string{"NewMap", "NewMapCmp", "NewSet", "NewSetCmp"}, "ctorBodies")},
 		Site{Module: mod, Pkg: pkg, Func: "Map.Put", Name: "mapForwards", Kind: Custom, Custom: allOf(
 			stmtsAre("Map.Len", "", []string{"returnm.t.size"}),
 			stmtsAre("Map.Put", "", []string{"m.t.Put(k,v)"}),
